@@ -114,23 +114,32 @@ Proof.
   - reflexivity.
 Qed.
 
-(* user Marshaler output: rejected unless it is one well-formed JSON value, or validation was explicitly disabled *)
+(* user Marshaler output under CompactMarshaler (ConfigStd): json.Compact rejects everything that is not one well-formed JSON value *)
 Theorem marshaler_output_checked : forall flags ret, json_valid ret = false ->
-  has_opts flags BitCompactMarshaler = true \/ has_opts flags BitNoValidateJSONMarshaler = false ->
+  has_opts flags BitCompactMarshaler = true ->
   encodeJsonMarshaler flags (OOk ret) = Some None.
 Proof.
-  intros flags ret Hv H. unfold encodeJsonMarshaler.
-  unfold json_valid in Hv. destruct (compact ret) eqn:E; [discriminate|].
-  destruct (has_opts flags BitCompactMarshaler) eqn:Ec; [reflexivity|].
-  destruct H as [H|H]; [discriminate|]. rewrite H. cbn. unfold json_valid. rewrite E. reflexivity.
+  intros flags ret Hv H. unfold encodeJsonMarshaler. rewrite H.
+  unfold json_valid in Hv. destruct (compact ret) eqn:E; [discriminate|]. reflexivity.
 Qed.
 
 Theorem marshaler_output_valid : forall flags ret out, encodeJsonMarshaler flags (OOk ret) = Some (Some out) ->
-  has_opts flags BitCompactMarshaler = true \/ has_opts flags BitNoValidateJSONMarshaler = false ->
-  json_valid ret = true.
+  has_opts flags BitCompactMarshaler = true -> json_valid ret = true.
 Proof.
   intros flags ret out H Hf. destruct (json_valid ret) eqn:E; [reflexivity|].
   rewrite (marshaler_output_checked flags ret E Hf) in H. discriminate.
 Qed.
+
+(* without CompactMarshaler the output goes through the native validator (unless NoValidateJSONMarshaler) *)
+Theorem marshaler_output_native_checked : forall flags ret, native_valid ret = false ->
+  has_opts flags BitCompactMarshaler = false -> has_opts flags BitNoValidateJSONMarshaler = false ->
+  encodeJsonMarshaler flags (OOk ret) = Some None.
+Proof. intros flags ret Hv Hc Hn. unfold encodeJsonMarshaler. rewrite Hc, Hn, Hv. reflexivity. Qed.
+
+(* REFUTED for that path: the native validator accepts string literals with an invalid escape or a raw control character,
+   so such Marshaler output is emitted although it is not well-formed JSON (witness: the four bytes "\x") *)
+Theorem marshaler_output_native_refuted :
+  exists ret, json_valid ret = false /\ encodeJsonMarshaler 0 (OOk ret) = Some (Some ret).
+Proof. exists [34; 92; 120; 34]%N. split; reflexivity. Qed.
 
 Example nan_bits : is_nan_inf64 9221120237041090560 = true /\ is_nan_inf32 2139095040 = true. Proof. split; reflexivity. Qed.
